@@ -2,8 +2,8 @@ SPECIFICATION Spec
 CONSTANTS Desc = {1, 2}
   OnCancel = "kill-tree"
   ReapedGroupKill = TRUE
-  TermThenWait = FALSE
-  GroupWhenTranslated = FALSE
+  TermThenWait = TRUE
+  GroupWhenTranslated = TRUE
   WaitDelay = TRUE
-INVARIANTS AfterReturnNoSurvivor
+PROPERTIES StopReturns
 CHECK_DEADLOCK FALSE
